@@ -96,6 +96,14 @@ def run_case(rs, ctx):
     cfg_cont = cfg if late_binarizer is None else dict(cfg, lp=dict(cfg["lp"], binarizer=late_binarizer))
     cont = gen.gen_continuation(rs, cfg_cont, sh) if sh.fitted else \
         gen.gen_ops(rs, cfg, sh, 1, ["fit"], train_rows=(5, 12)) + gen.gen_continuation(rs, cfg, sh)
+    if gen.is_linear(cfg) and cfg["lp"].get("scale") and rs.integers(2):
+        # a timestamp-like first column: huge common value, spread of a few 2^-17 - inside an arm's rows the column is 'nearly
+        # constant' by scikit-learn's own rule although its standard deviation is far above zero
+        for o_ in hist + cont:
+            if o_.get("X") is not None:
+                o_["X"] = [[1.7e9 + row[0] * 2.0 ** -17] + list(row[1:]) for row in o_["X"]]
+                o_.pop("x_enc", None)
+        ctx.count("timestamp_column_cases")
     M = gen.build(cfg)
     wit = {"cfg": cfg, "history": hist, "copy_point": point, "method": method, "continuation": cont}
     o = gen.run_ops(M, hist)
